@@ -293,11 +293,13 @@ def array_contract_path(
         try:
             path = _PATH_CACHE[key]
         except KeyError:
-            path = _PATH_CACHE[key] = find_path(
-                inputs, output, size_dict, optimize
+            # n.b. store an immutable path, as whatever is cached is handed
+            # out again to every later caller
+            path = _PATH_CACHE[key] = tuple(
+                map(tuple, find_path(inputs, output, size_dict, optimize))
             )
     else:
-        path = find_path(inputs, output, size_dict, optimize)
+        path = tuple(map(tuple, find_path(inputs, output, size_dict, optimize)))
 
     return path
 
